@@ -265,4 +265,70 @@ pub fn run(rec: &mut Recorder, w: &mut World, tier: &str, seed: u64) {
         }
         rec.nontrivial_case(&format!("dpattern|{}", descr.join("|")));
     }
+    // ---- the role manager as written, with matching functions, against the Lean model of the whole of
+    //      default_role_manager.rs (`PatRoles.lean`): histories of add_link / delete_link / clear / matching_fn on a bare
+    //      `DefaultRoleManager`, every has_link pair and the role / user listings compared after every step.  With a function
+    //      installed these are fidelity observables (no listed property fixes what a pattern walk must answer); the first
+    //      case replays the K2 witness that `Props/C08.lean` proves non-monotone in the model (`k2_witness`) ----
+    let n_prm = (if tier == "thorough" { 2500 } else { 300 }) * rec.budget as usize;
+    let km_names = ["alice", "bob", "guest", "reader", "*", "b*", "gu*", "bo"];
+    let km2_names = ["/book/1", "/book/2", "/book/:id", "/book/*", "/pen/1", "/pen/:id", "alice", "/book/:x/y", "/book/1/y"];
+    let prm_doms = ["-", "d1", "d2", "d*", "*"];
+    for ci in 0..n_prm {
+        rec.begin();
+        let (rf, df) = if ci == 0 { ("keyMatch", "-") } else { *rng.pick(&[("keyMatch", "-"), ("keyMatch", "-"), ("-", "keyMatch"), ("keyMatch", "keyMatch"), ("keyMatch2", "-"), ("-", "-")]) };
+        let names: &[&str] = if rf == "keyMatch2" { &km2_names } else { &km_names };
+        let doms: Vec<&str> = if df == "-" && ci % 3 != 0 { vec!["-"] } else { prm_doms.to_vec() };
+        let limit = if ci == 0 { 10 } else { *rng.pick(&[10usize, 10, 10, 3, 2, 1]) };
+        rec.exec(w, &format!("prm.new\t{}\t{}\t{}", limit, rf, df));
+        let names_s = enc_list(&names.iter().map(|x| x.to_string()).collect::<Vec<_>>());
+        let doms_s = doms.join(",");
+        let mut script: Vec<String> = vec![];
+        if ci == 0 {
+            for (a, b, add) in [("b*", "alice", true), ("*", "guest", true), ("*", "guest", false), ("reader", "guest", true), ("b*", "*", true)] {
+                script.push(format!("prm.{}\t{}\t{}\t-", if add { "add" } else { "del" }, esc(a), esc(b)));
+            }
+            script.reverse();
+        }
+        let steps = if ci == 0 { script.len() } else { 3 + rng.below(12) };
+        let mut links: Vec<(String, String, String)> = vec![];
+        let mut descr: Vec<String> = vec![];
+        let mut flush = 0;
+        for _ in 0..steps {
+            let line = if let Some(l) = script.pop() { l } else { match rng.below(20) {
+                0..=10 => { let (a, b, d) = (*rng.pick(names), *rng.pick(names), *rng.pick(&doms)); links.push((a.into(), b.into(), d.into())); format!("prm.add\t{}\t{}\t{}", esc(a), esc(b), if d == "-" { "-".to_string() } else { esc(d) }) }
+                11..=15 => { if !links.is_empty() && rng.chance(3, 4) { let (a, b, d) = links.remove(rng.below(links.len())); format!("prm.del\t{}\t{}\t{}", esc(&a), esc(&b), if d == "-" { "-".to_string() } else { esc(&d) }) }
+                             else { let (a, b, d) = (*rng.pick(names), *rng.pick(names), *rng.pick(&doms)); format!("prm.del\t{}\t{}\t{}", esc(a), esc(b), if d == "-" { "-".to_string() } else { esc(d) }) } }
+                16 => "prm.clear".to_string(),
+                17 => { let (r2, d2) = *rng.pick(&[("keyMatch", "-"), ("-", "-"), ("-", "keyMatch"), ("keyMatch", "keyMatch")]); if rf == "keyMatch2" { continue; } format!("prm.fn\t{}\t{}", r2, d2) }
+                _ => { let (a, d) = (*rng.pick(names), *rng.pick(&doms)); let dd = if d == "-" { "-".to_string() } else { esc(d) };
+                       rec.exec(w, &format!("~prm.roles\t{}\t{}", esc(a), dd)); rec.exec(w, &format!("~prm.users\t{}\t{}", esc(a), dd)); rec.count("prm:listing-queries"); continue; }
+            } };
+            // the answer of a mutation (ok / err:rbac) is compared as a fidelity observable as well
+            let r = rec.exec(w, &format!("~{}", line));
+            if r == "panic" { rec.fail("role-manager-panicked", format!("[role manager, role fn {} domain fn {}] {} panicked after {}", rf, df, line.replace('\t', " "), descr.join(" ; "))); }
+            descr.push(line.replace('\t', " "));
+            if line.starts_with("prm.fn") || line.starts_with("prm.del") {
+                // `matching_fn` keeps the manager's has_link result cache (feature `cached`, 50 entries with eviction - not in the
+                // model), and so does a `delete_link` that only creates nodes (a domain-matching function lets it pass the
+                // existence test through another domain): a new link in a domain of its own, between names no query mentions,
+                // empties it
+                flush += 1;
+                rec.exec(w, &format!("~prm.add\tzz{}\tzy{}\tzz", flush, flush));
+            }
+            let snap = rec.exec(w, &format!("~prm.snap\t{}\t{}", names_s, doms_s));
+            rec.count(&format!("prm:{}", line.split('\t').next().unwrap()));
+            rec.count(&format!("prm:fn-{}-{}", rf, df));
+            if snap.contains('t') { rec.count("prm:state-with-links"); }
+        }
+        if ci == 0 {
+            // K2 at the level of the role manager: bob reaches guest through the patterns, and no longer does once
+            // the link guest -> bob has made bob a node of its own
+            let before = rec.exec(w, "~prm.has\tbob\tguest\t-");
+            rec.exec(w, "~prm.add\tguest\tbob\t-");
+            let after = rec.exec(w, "~prm.has\tbob\tguest\t-");
+            rec.count(&format!("prm:k2-witness-{}-{}", before, after));
+        }
+        rec.nontrivial_case(&format!("prm|{}|{}|{}|{}", rf, df, limit, descr.join("|")));
+    }
 }
